@@ -209,3 +209,20 @@ def corr(ctx, docs, headers, loose_p=0.4):
         i = j
     return {"cases": len(lines), "distinct": len(set(lines)), "unmodelled": dist["unmodelled_docs"], "disagreements": dis, "distribution": dist,
             "samples": [{"doc": (docs[0][0] if isinstance(docs[0], tuple) else docs[0]).decode("utf-8", "replace")[:300]}] if docs else []}
+
+
+def content_corr(ctx, n, into=None):
+    """the stage-2 tie (text constructs: push_content / pop_content / pop() with content parameters, post-processing steps as recorded
+    oracles) on n generated documents; merged into the correspondence result `into` of a property whose theorems speak about `contentOutput`"""
+    docs = [content_doc(ctx.rng) for _ in range(n)]
+    r = corr(ctx, docs, {"content-type": "application/xml; charset=utf-8", "content-location": "http://base.example/dir/"}, loose_p=0.3)
+    if into is None:
+        return r
+    into["cases"] += r["cases"]
+    into["distinct"] += r["distinct"]
+    into["unmodelled"] = into.get("unmodelled", 0) + r["unmodelled"]
+    for d in r["disagreements"]:
+        if len(into["disagreements"]) < 20:
+            into["disagreements"].append(dict(d, which="M-mixin stage 2 (text constructs)"))
+    into.setdefault("distribution", {})["mixin_stage2"] = r["distribution"]
+    return into
